@@ -49,7 +49,10 @@ func c10API(ctx *core.Ctx, idx int) core.Result {
 		n := r.Range(0, 6)
 		a := make([]val.Value, n)
 		for j := range a {
-			if r.Chance(1, 4) {
+			if r.Chance(1, 6) {
+				// arrays can hold the absent value ([u] with an undefined u): a nil element is an element
+				a[j] = val.NilV
+			} else if r.Chance(1, 4) {
 				a[j] = val.StrV(fmt.Sprintf("e%d", r.Intn(50)))
 			} else {
 				a[j] = val.IntV(int64(r.Intn(1000)))
@@ -127,6 +130,11 @@ func c10API(ctx *core.Ctx, idx int) core.Result {
 				sl := make([]value.Type, 0, m+r.Intn(3))
 				sh := make([]val.Value, 0, m)
 				for q := 0; q < m; q++ {
+					if r.Chance(1, 8) {
+						sl = append(sl, calcrun.ToCalc(val.NilV))
+						sh = append(sh, val.NilV)
+						continue
+					}
 					p := live[r.Intn(len(live))]
 					sl = append(sl, p.real)
 					sh = append(sh, p.shadow)
@@ -201,6 +209,8 @@ func c10Program(r *core.Rng) []ast.Node {
 			Else: ast.ArrayLit{Elems: []ast.Node{nm("n"), icall("lst", ast.Binary{Op: "-", L: nm("n"), R: il(1)})}}}}},
 		ast.Assign{Name: "lstk", Value: ast.FuncLit{Params: []string{"n"}, Body: ast.If{Cond: ast.Binary{Op: "<=", L: nm("n"), R: il(0)}, Then: arr(7, 0, 0, 9),
 			Else: ast.ArrayLit{Elems: []ast.Node{il(7), nm("n"), icall("lstk", ast.Binary{Op: "-", L: nm("n"), R: il(1)}), ast.Binary{Op: "*", L: nm("n"), R: il(2)}, il(9)}}}}},
+		// a callee that uses the temp register itself
+		ast.Assign{Name: "ztmp", Value: ast.FuncLit{Params: []string{"v"}, Body: ast.Binary{Op: "+", L: ast.Binary{Op: "+", L: nm("v"), R: nm("v")}, R: nm("v")}}},
 		// two generators of one function suspended inside the same literal
 		ast.Assign{Name: "pairs", Value: ast.FuncLit{Params: []string{"n"}, Body: ast.For{Vars: []string{"i"}, Iters: []ast.Node{icall("fromto", il(0), nm("n"))}, Body: ast.Yield{X: ast.ArrayLit{Elems: []ast.Node{nm("i"), ast.Binary{Op: "+", L: nm("i"), R: il(1)}, nm("n")}}}}}},
 	)
@@ -214,7 +224,27 @@ func c10Program(r *core.Rng) []ast.Node {
 	for k := r.Range(6, 16); k > 0; k-- {
 		a := nm(vars[r.Intn(len(vars))])
 		b := nm(vars[r.Intn(len(vars))])
-		switch r.Intn(14) {
+		switch r.Intn(16) {
+		case 14, 15: // + chains ending in a literal whose call comes after computed elements (the chain's left part waits in the temp register)
+			v := newVar("ya")
+			call3 := icall("ztmp", ast.Binary{Op: "+", L: nm("xk"), R: il(int64(r.Intn(5)))})
+			var lit ast.Node
+			switch r.Intn(4) {
+			case 0:
+				lit = ast.ArrayLit{Elems: []ast.Node{nm("xk"), call3}}
+			case 1:
+				lit = ast.ArrayLit{Elems: []ast.Node{ast.StrLit{V: "x"}, ast.Index{X: a, I: il(0)}, call3}}
+			case 2:
+				lit = ast.ArrayLit{Elems: []ast.Node{ast.Unary{Op: "#", X: a}, ast.Binary{Op: "*", L: nm("xk"), R: il(2)}, call3, il(4)}}
+			default:
+				lit = ast.ArrayLit{Elems: []ast.Node{il(1), ast.Slice{X: a, I: il(0), J: il(1)}, ast.ArrayLit{Elems: []ast.Node{nm("xk"), call3}}}}
+			}
+			if r.Bool() {
+				ss = append(ss, ast.Assign{Name: v, Value: ast.Binary{Op: "+", L: ast.Binary{Op: "+", L: a, R: b}, R: lit}})
+			} else {
+				ss = append(ss, ast.Assign{Name: v, Value: ast.Binary{Op: "+", L: ast.Binary{Op: "+", L: ast.Slice{X: a, I: il(0), J: il(1)}, R: arr(r.Intn(9))}, R: lit}})
+			}
+			vars = append(vars, v)
 		case 0: // slice of a (possibly sliced) array: index bounds from its length
 			v := newVar("ya")
 			ss = append(ss, ast.Assign{Name: v, Value: ast.Slice{X: a, I: il(int64(r.Intn(2))), J: ast.Binary{Op: "-", L: ast.Unary{Op: "#", X: a}, R: il(int64(r.Intn(2)))}}})
